@@ -1282,6 +1282,40 @@ def idx0(run, reach):
             if len_guarded(f, bi, lambda oo, pidx=pidx: peel(oo) == ("param", pidx)):
                 continue
             pre.setdefault(f.id, (pidx, ci, t["span"]))
+    # `assert!(x.len() >= 1)` on something computed from a parameter (a string's characters): the same precondition
+    for f in prog.real_fns():
+        if f.id in pre:
+            continue
+        for bi, t in f.calls():
+            if not (t.get("callee") or "").endswith("panicking::panic") or "assertion failed" not in str((t["args"] or [{}])[0].get("const", "")):
+                continue
+            if not re.search(r"len\(\) (>=|>) \d", str(t["args"][0].get("const", ""))):
+                continue
+            # the collection whose length is tested, back to a parameter
+            for b2 in f.dominators().get(bi, ()):
+                tt = f.blocks[b2]["term"]
+                if tt["k"] != "switch" or op_local(tt["discr"]) is None:
+                    continue
+                o = f.origin_local(op_local(tt["discr"]))
+                if o[0] == "binop" and o[1]["op"] in ("Ge", "Gt"):
+                    lo = f.origin_op(o[1]["l"])
+                    if lo[0] == "call" and re.search(r"::len$", lo[1].get("callee") or ""):
+                        seen = set()
+                        work = [lo[1]["args"][0]]
+                        while work:
+                            x = work.pop()
+                            ox = peel(f.origin_op(x)) if op_place(x) is not None else None
+                            if ox is None or id(ox) in seen:
+                                continue
+                            seen.add(id(ox))
+                            if ox[0] == "param":
+                                pre.setdefault(f.id, (ox[1], 0, t["span"]))
+                            elif ox[0] == "call" and ox[1]["args"] and len(seen) < 8:
+                                work.append(ox[1]["args"][0])
+                            elif ox[0] == "multi":
+                                for dd in f.full_defs(ox[1]):
+                                    if dd[0] == "call" and dd[2]["args"]:
+                                        work.append(dd[2]["args"][0])
     run.count("idx0_precondition_functions", len(pre))
     n = 0
     for fid, (pidx, ci, span) in sorted(pre.items()):
@@ -1308,6 +1342,10 @@ def idx0(run, reach):
                     return peel(oo) == root or (root[0] == "multi" and peel(oo)[0] == "multi" and peel(oo)[1] == root[1])
                 ok = len_guarded(f, bi, same_root)
                 key = "IDX0|%s|called-from|%s" % (fid, f.id)
+                aud = {e["key"]: e["reason"] for e in run.table("err").get("idx0_audited", [])}
+                if not ok and key in aud:
+                    run.exception(R, key, f.loc(t["span"]), "%s passes a value to %s that is non-empty for a reason the length-test rule cannot see: %s" % (f.id, fid.rsplit("::", 1)[-1], aud[key]))
+                    continue
                 run.check(ok, R, key, f.loc(t["span"]),
                           "%s: the collection passed to %s (which reads element %d without a length test) is known non-empty here" % (f.id, fid.rsplit("::", 1)[-1], ci),
                           "%s passes `%s` to %s, which reads element %d without a length test; nothing here establishes that it is non-empty: index out of bounds panic" % (
